@@ -231,6 +231,7 @@ async fn run_case(c: &Case, ctx: &mut WorkerCtx) -> Outcome {
 
     // ---- client programs
     let t0 = Instant::now();
+    let lag = std::sync::Arc::new(wire::LagMonitor::start(t0));
     let mut handles = vec![];
     for (i, (shard, txns)) in c.clients.iter().enumerate() {
         let id = i as u32 + 1;
@@ -238,6 +239,7 @@ async fn run_case(c: &Case, ctx: &mut WorkerCtx) -> Outcome {
         let txns = txns.clone();
         let shard = *shard;
         let linger = faulty;
+        let lag = lag.clone();
         handles.push(tokio::spawn(async move {
             let mut problems: Vec<(String, String)> = vec![];
             let mut cli = match cli {
@@ -273,9 +275,11 @@ async fn run_case(c: &Case, ctx: &mut WorkerCtx) -> Outcome {
                         problems.push(("client-got-pooler-error".into(), format!("{:?}", crate::cli::errors(&x.reply))));
                         break 'outer;
                     }
+                    // (time during which the harness itself was not scheduling - busy mock backends, starved CPU - is not the pooler's)
                     let took_ms = (x.t_done_us - x.t_send_us) / 1000;
-                    if took_ms > 600 + scripted {
-                        problems.push(("added-waiting".into(), format!("request {:?} took {} ms (scripted server delay {} ms)", x.tags, took_ms, scripted)));
+                    let harness_ms = lag.lag_ms_between(x.t_send_us, x.t_done_us);
+                    if took_ms > 600 + scripted + harness_ms {
+                        problems.push(("added-waiting".into(), format!("request {:?} took {} ms (scripted server delay {} ms, harness lag {} ms)", x.tags, took_ms, scripted, harness_ms)));
                         break 'outer;
                     }
                 }
@@ -290,6 +294,7 @@ async fn run_case(c: &Case, ctx: &mut WorkerCtx) -> Outcome {
     if let Some(&mi) = stalled.first() {
         let shard = c.mirrors[mi].shard;
         let cli = env.client(40, "u", "db", "pw", &[]).await;
+        let lag = lag.clone();
         bulk_handle = Some(tokio::spawn(async move {
             let mut problems: Vec<(String, String)> = vec![];
             let mut cli = match cli {
@@ -304,13 +309,15 @@ async fn run_case(c: &Case, ctx: &mut WorkerCtx) -> Outcome {
             for _ in 0..10 {
                 let t = cli.tag();
                 let started = Instant::now();
+                let from_us = t0.elapsed().as_micros() as u64;
                 let (m, e) = cli.simple(&format!("{} SELECT v FROM t /* {} */", t.render(), pad), wire::T_REPLY).await;
                 if !matches!(e, ReadEnd::Ready(_)) || m.iter().any(|x| x.code == b'E') {
                     problems.push(("client-not-answered".into(), format!("1 MiB statement {} ended {:?} {:?}", t.short(), e, crate::cli::errors(&m))));
                     break;
                 }
-                if started.elapsed().as_millis() > 900 {
-                    problems.push(("added-waiting".into(), format!("1 MiB statement {} took {} ms while a mirror was stalled", t.short(), started.elapsed().as_millis())));
+                let harness_ms = lag.lag_ms_between(from_us, t0.elapsed().as_micros() as u64);
+                if started.elapsed().as_millis() as u64 > 900 + harness_ms {
+                    problems.push(("added-waiting".into(), format!("1 MiB statement {} took {} ms while a mirror was stalled (harness lag {} ms)", t.short(), started.elapsed().as_millis(), harness_ms)));
                     break;
                 }
             }
@@ -337,6 +344,7 @@ async fn run_case(c: &Case, ctx: &mut WorkerCtx) -> Outcome {
     }
     // let healthy mirrors drain their queue
     tokio::time::sleep(std::time::Duration::from_millis(if stalled.is_empty() { 60 } else { 600 })).await;
+    lag.stop();
     let log = env.log();
     let stderr = env.pg.stderr_tail(500);
     env.finish().await;
